@@ -285,3 +285,39 @@ package core
 //@   assert[C10.enabled_gate_setparents] at "loc.setParents(ctx, parents)": eok
 //@ func (*Location).GetParents
 //@   assert[C10.enabled_gate_getparents] at "loc.getParents(ctx)": eok
+
+// ---- C10: rule lifecycle ------------------------------------------------------------------
+//@ ghost ruleOK string
+//@ ghost lastGetId string
+//@ ghost lastGetProp string
+//@ ghost lastGetVal interface{}
+//@ ghost lastSetId string
+//@ ghost lastSetProp string
+//@ ghost lastSetVal interface{}
+//@ ghost lastRemId string
+//@ ghost lastRemProp string
+//@ func GetProp
+//@   ghost-ensures lastGetId == id && lastGetProp == prop && lastGetVal == result0
+//@   also-modifies lastGetId, lastGetProp, lastGetVal
+//@ func SetProp
+//@   ghost-ensures lastSetId == id && lastSetProp == prop && lastSetVal == val
+//@   also-modifies lastSetId, lastSetProp, lastSetVal
+//@ func RemProp
+//@   ghost-ensures lastRemId == id && lastRemProp == prop
+//@   also-modifies lastRemId, lastRemProp
+
+//@ func (*Location).RuleEnabled
+//@   ensures[C10.ruleenabled_reads_flag] result0 ==> lastGetId == id && lastGetProp == "disabled"
+//@   ensures[C10.ruleenabled_exact]      result0 ==> !(is(lastGetVal, bool) && lastGetVal.(bool))
+//@   ensures[C10.ruleenabled_location]   result0 ==> eok
+//@   ghost-ensures result0 ==> ruleOK == id
+//@   also-modifies ruleOK, eok, lastProp, lastPropVal, lastGetId, lastGetProp, lastGetVal
+
+//@ func (*Location).EnableRule
+//@   ensures[C10.disable_sets_flag]  result == nil && !enable ==> lastSetId == id && lastSetProp == "disabled" && lastSetVal == box(true)
+//@   ensures[C10.enable_clears_flag] result == nil && enable  ==> lastRemId == id && lastRemProp == "disabled"
+
+//@ func (*FindRules).Do
+//@   loop 1: invariant[C10.dispatch_loop] embedded ==> eok
+//@   assert[C10.dispatch_only_enabled_rules]    at "append(w.Children, child)": embedded || ruleOK == id
+//@   assert[C10.dispatch_only_enabled_location] at "append(w.Children, child)": eok
